@@ -13,8 +13,11 @@ func (p *Parser) withStateStore() bool { return p.Has["InitState"] }
 // history has the same alignment keys; it returns nil when the model does not
 // apply or does not agree about matching (an unclaimed divergence).
 func alignedModel(p *Parser, c *Call, r *CallResult) (*Model, int) {
-	if c.Opts.Memoize || c.Opts.MaxExpr != 0 || c.Opts.AllowInvalidUTF8 {
+	if c.Opts.MaxExpr != 0 || c.Opts.AllowInvalidUTF8 {
 		return nil, -1
+	}
+	if c.Opts.Memoize && contains(p.Flags, "-support-left-recursion") {
+		return nil, -1 // the model's memo does not cover the interplay with seed growing
 	}
 	m := RunModel(p.Grammar(), c, p.withStateStore())
 	if m.Aborted != "" {
